@@ -1139,8 +1139,8 @@ void XMLDateTime::getTime()
     if ( milisec != NOT_FOUND )
     {
         fStart++;   // skip the '.'
-        // make sure we have some thing between the '.' and fEnd
-        if (fStart >= fEnd)
+        // make sure we have some thing between the '.' and fEnd (or the time zone)
+        if (fStart >= fEnd || (sign != NOT_FOUND && XMLSize_t(sign) == fStart))
         {
             ThrowXMLwithMemMgr1(SchemaDateTimeException
                     , XMLExcepts::DateTime_ms_noDigit
